@@ -70,6 +70,11 @@ func jobSyncMonitor(res *Result, m *mJob, cfg jsCfg, ops []jsOp, obs []jsObs, js
 				if p.Name == r.Name && podControlled(p) && podAlive(p) && (r.Status.State == execution.TaskDeletedFinalStateUnknown || !r.FinishTimestamp.IsZero()) && taintAt < 0 {
 					taintAt = k
 				}
+				// the same defect with a Pod that has already finished: recorded as lost (finish time
+				// = now) although the Pod is there with its real finish time
+				if p.Name == r.Name && podControlled(p) && !podAlive(p) && r.Status.State == execution.TaskDeletedFinalStateUnknown && taintAt < 0 {
+					taintAt = k
+				}
 			}
 		}
 	}
@@ -94,11 +99,12 @@ func jobSyncMonitor(res *Result, m *mJob, cfg jsCfg, ops []jsOp, obs []jsObs, js
 	if cfg.Force != nil {
 		fd = *cfg.Force
 	}
-	created := map[string]int64{}       // per hash: number of successful creates so far
-	truthFinish := map[string]int64{}   // per task name: when the attempt really ended
-	truthSucceeded := map[string]bool{} // per hash: a Pod of it really succeeded
-	everRecorded := map[string]bool{}   // task names that appeared in some stored status
-	editedSinceFinished := false        // kill or delete issued by the user after the Job was first stored as finished
+	created := map[string]int64{}          // per hash: number of successful creates so far
+	truthFinish := map[string]int64{}      // per task name: when the attempt really ended
+	truthSucceeded := map[string]bool{}    // per hash: a Pod of it really succeeded
+	observedSucceeded := map[string]bool{} // per hash: a pass saw a Pod of it in phase Succeeded in its cache
+	everRecorded := map[string]bool{}      // task names that appeared in some stored status
+	editedSinceFinished := false           // kill or delete issued by the user after the Job was first stored as finished
 	foreignSeen := false
 	var prevJob *execution.Job
 	var prevPods []*corev1.Pod
@@ -162,6 +168,46 @@ func jobSyncMonitor(res *Result, m *mJob, cfg jsCfg, ops []jsOp, obs []jsObs, js
 		}
 		if o.Kind == "sync" {
 			cj := ob.CachedJob
+			// an index counts as succeeded once some pass could SEE one of its Pods in phase Succeeded
+			// (a Pod that succeeds and vanishes between two looks of the cache is lost, not succeeded)
+			for _, p := range ob.CachedPods {
+				if podControlled(p) && p.Status.Phase == corev1.PodSucceeded {
+					_, v := podView(p, false)
+					if v[1] == 0 {
+						hh, _ := splitTaskName(p.Name)
+						observedSucceeded[hh] = true
+					}
+				}
+			}
+			// Deadlines that only the passing of time can trigger need a timer: a pass that ends
+			// without error while a task it saw is still inside its pending timeout, or is being
+			// deleted and still inside the force-delete timeout, must arm a deferred re-sync
+			// (nothing else will wake the controller when the deadline comes).
+			if cj != nil && ob.OK && !cj.Status.StartTime.IsZero() && cj.DeletionTimestamp == nil {
+				recorded := map[string]bool{}
+				for _, r := range cj.Status.Tasks {
+					recorded[r.Name] = true
+				}
+				for _, p := range ob.CachedPods {
+					if !recorded[p.Name] {
+						continue
+					}
+					_, v := podView(p, false)
+					phase, del, createdAt, contStart := v[0], v[2], v[4], v[6]
+					finished := phase == 2 || phase == 3
+					if pt > 0 && !finished && contStart < 0 && now < createdAt+pt && !ob.Armed {
+						hit("C12", "C12/no-timer-for-pending-timeout", fmt.Sprintf("op %d: %s is pending since %d, the pending timeout (%d s) ends at %d, now %d: the pass armed no re-sync", k, p.Name, createdAt, pt, createdAt+pt, now))
+					}
+					if fd > 0 && !m.ForbidForce && del >= 0 && now < del+fd && !ob.Armed {
+						hit("C12", "C12/no-timer-for-force-delete", fmt.Sprintf("op %d: %s is being deleted since %d, force deletion (%d s) is due at %d, now %d: the pass armed no re-sync", k, p.Name, del, fd, del+fd, now))
+					}
+				}
+			}
+			// ... and a finished Job with its own TTL needs one for its clean-up
+			if cj != nil && ob.OK && ob.Job != nil && jobFinished(ob.Job) && ob.Job.DeletionTimestamp == nil && cj.DeletionTimestamp == nil &&
+				cj.Spec.TTLSecondsAfterFinished != nil && jobFinished(cj) && !ob.Armed {
+				hit("C13", "C13/no-timer-for-ttl", fmt.Sprintf("op %d: the Job is finished and carries ttlSecondsAfterFinished=%d; the pass armed no re-sync", k, *cj.Spec.TTLSecondsAfterFinished))
+			}
 			createdBefore := map[string]int64{}
 			for hh, v := range created {
 				createdBefore[hh] = v
@@ -198,7 +244,7 @@ func jobSyncMonitor(res *Result, m *mJob, cfg jsCfg, ops []jsOp, obs []jsObs, js
 					if !ob.PodLag && !ob.JobLag {
 						decided := ""
 						for _, hh := range m.Hashes {
-							if m.Strategy == "Any" && truthSucceeded[hh] {
+							if m.Strategy == "Any" && observedSucceeded[hh] {
 								decided = "index " + hh + " has succeeded (AnySuccessful)"
 							}
 							if m.Strategy != "Any" && hh != h && !truthSucceeded[hh] && createdBefore[hh] >= m.MaxAttempts {
@@ -502,6 +548,11 @@ func jobSyncMonitor(res *Result, m *mJob, cfg jsCfg, ops []jsOp, obs []jsObs, js
 						if b.Status.Condition.Finished.Result == execution.JobResultAdmissionError {
 							sig += "/admission-error"
 						}
+						if !everRecorded[p.Name] {
+							// the live Pod was created by a pass whose status write failed or whose gate
+							// closed before it was recorded (finding F10): the status knows nothing of it
+							sig += "/unrecorded-task"
+						}
 						hit("C10", sig+lagSfx(ob), fmt.Sprintf("op %d: Job reported %s while %s is alive", k, b.Status.Condition.Finished.Result, p.Name))
 					}
 				}
@@ -525,7 +576,7 @@ func jobSyncMonitor(res *Result, m *mJob, cfg jsCfg, ops []jsOp, obs []jsObs, js
 					continue
 				}
 				for _, p := range ob.Pods {
-					if p.Name == r.Name && podControlled(p) && podAlive(p) && k == taintAt {
+					if p.Name == r.Name && podControlled(p) && k == taintAt {
 						hit("C09", "C09/lost-while-exists"+lagSfx(ob), fmt.Sprintf("op %d: task %s recorded as DeletedFinalStateUnknown while its Pod exists", k, r.Name))
 					}
 				}
